@@ -330,8 +330,12 @@ def check_property(pid, tier, seed, write_lock=False):
   ev = {'property_id': pid, 'tier': tier, 'seed': seed, 'level': level,
         'coverage': coverage, 'assumptions': assumptions,
         'wall_s': round(time.time() - t0, 2), 'violations': violations}
-  os.makedirs(os.path.join(HERE, 'evidence'), exist_ok=True)
-  with open(os.path.join(HERE, 'evidence', f'{pid}.json'), 'w') as fh:
+  # evidence/ describes /repo; a run pointed at another tree (PYVC_REPO: seeded changes,
+  # rewrites) writes its evidence next to the replays, never over the committed files
+  evdir = os.path.join(HERE, 'evidence') if os.path.realpath(REPO) == '/repo' else \
+      os.path.join(HERE, 'replays', 'evidence_of_other_trees')
+  os.makedirs(evdir, exist_ok=True)
+  with open(os.path.join(evdir, f'{pid}.json'), 'w') as fh:
     json.dump(ev, fh, indent=1, default=str)
 
   for l in known_lines:
